@@ -359,6 +359,70 @@ def gen_obj(rng, t=None):
     return {"VEVENT": gen_vevent, "VTODO": gen_vtodo, "VJOURNAL": gen_vjournal}[t](rng)
 
 
+def period_of(rec):
+    return rec["interval"] * (DAY if rec["freq"] == "DAILY" else 7 * DAY)
+
+
+def gen_leading_ex(rng, t=None, forever=None):
+    """a recurring object whose FIRST instance(s) are removed by EXDATE (EXDATE = DTSTART, DTSTART + period, ...):
+    the recurrence set then begins after DTSTART, which matters for everything derived from 'the first instance'."""
+    t = t or rng.choice(["VEVENT", "VTODO", "VJOURNAL"])
+    while True:
+        o = gen_obj(rng, t)
+        if o["t"] == "VTODO" and o["dtstart"] is None:
+            continue
+        if o["t"] == "VJOURNAL" and o["start"] is None:
+            continue
+        break
+    s0 = ref_start(o)
+    kind = o["kind"]
+    if forever is None:
+        forever = rng.random() < 0.6
+    m = rng.choice([1, 1, 2, 3])
+    interval = rng.choice([1, 1, 2, 3])
+    freq = rng.choice(["DAILY", "DAILY", "WEEKLY"])
+    p = interval * (DAY if freq == "DAILY" else 7 * DAY)
+    if forever:
+        bound = None
+    elif rng.random() < 0.5:
+        bound = ["count", m + rng.choice([0, 1, 2, 4])]
+    else:
+        bound = ["until", s0 + (m + rng.choice([-1, 0, 1, 3])) * p]
+    ex = [s0 + k * p for k in range(m)]
+    if rng.random() < 0.2:
+        ex.append(s0 + (m + 1) * p)
+    order = ["FREQ", "INTERVAL", "BOUND"]
+    if rng.random() < 0.3:
+        rng.shuffle(order)
+    o["rec"] = dict(freq=freq, interval=interval, bound=bound, ex=ex, order=order, explicit_interval=rng.random() < 0.3)
+    return o
+
+
+def leading_gap_ranges(rng, o, n):
+    """ranges placed between DTSTART (removed by EXDATE) and the first surviving instance, at and +-1 s around them"""
+    rec = o.get("rec")
+    s0 = ref_start(o)
+    if not rec or s0 is None or s0 not in rec["ex"]:
+        return []
+    surv = occurrences(s0, rec, s0 + 60 * period_of(rec), 80)
+    first = surv[0] if surv else s0 + (len(rec["ex"]) + 1) * period_of(rec)
+    offs = instance_len(o)
+    out = []
+    while len(out) < n:
+        a = s0 + rng.choice([-1, -1, 0, 0, 1]) + rng.choice([0, 0, min(offs)])
+        c = rng.random()
+        if c < 0.45:
+            b = first + rng.choice([-2, -1, -1, 0, 0, 1]) + rng.choice([0, 0, min(offs)])
+        elif c < 0.75:
+            b = s0 + rng.choice(offs) + rng.choice([-1, 0, 1, 2])
+        else:
+            b = rng.randrange(s0, max(first, s0 + 2)) + 1
+        if b <= a:
+            b = a + 1
+        out.append([a, b])
+    return out
+
+
 # regression corpus: the witnesses of the defects found (kept forever)
 def corpus():
     J10 = T0 + 9 * DAY
@@ -378,6 +442,10 @@ def corpus():
         ("F18", td(dtstart=J10, due=J10 + 10 * DAY, created=T0, completed=T0 + DAY), [J10 + 5 * DAY, J10 + 6 * DAY]),
         ("F14", td(dtstart=J10, due=J10, rec=rec()), [J10 - DAY, J10]),
         ("F14", td(dtstart=J10, duration=0, rec=rec()), [J10 - DAY, J10]),
+        # first instance removed by EXDATE, unbounded rule, range covering DTSTART only
+        ("first-exdate", ev(end=["dtend", J10 + 3600], rec=rec(ex=[J10])), [J10 - 60, J10 + 7200]),
+        ("first-exdate", td(dtstart=J10, due=J10 + 3600, rec=rec(freq="WEEKLY", ex=[J10, J10 + 7 * DAY])), [J10, J10 + DAY]),
+        ("first-exdate", dict(t="VJOURNAL", kind="DATE", start=T0, rec=rec(ex=[T0])), [T0, T0 + DAY]),
     ]
 
 
@@ -558,7 +626,7 @@ def boundaries(o):
 def boundary_ranges(rng, o, n):
     """n ranges with start, end or both at and +-1 s around boundary seconds (plus a few far / inverted / empty)."""
     bs = boundaries(o)
-    out = []
+    out = leading_gap_ranges(rng, o, max(1, n // 3))
 
     def pick():
         return rng.choice(bs) + rng.choice([-1, 0, 0, 1])
